@@ -49,7 +49,7 @@ def run(ctx):
             sb.model_check(ctx, "c17-" + name, sb.consts("c17", [name], **b), invs, timeout=3000, heap="10g", workers=8)
         nsim, nrandom = 1500, 3000
     s1, model_k = sb.export_c11(ctx, SHARED, 1, 5, "single")
-    sb.check_K(ctx, dry, model_k)
+    kdrift = sb.check_K(ctx, dry, model_k)
     s2 = sb.export_c17(ctx, ["pairn", "pairx", "pairm", "multi"], nsim, "c17", MaxFail=1, MaxCrash=1, MaxFaults=2, MaxRec=2, MaxEnv=3,
                        MaxSync=2, MaxConc=3)
     s3 = sb.directed_c17(ctx.quick, {k: v["K"] for k, v in dry.items()})
@@ -60,6 +60,8 @@ def run(ctx):
                                                   "-kmax", json.dumps({k: v["K"] for k, v in dry.items()})])
     for t in (t1, t2):
         sb.validate(ctx, t, "C17_")
+    if kdrift:
+        raise vlib.Infra(kdrift)
     ctx.cov["evaluations"] += nrandom
     ctx.cov["edges_replayed_on_impl"] = len(scheds)
     ctx.cov["exhaustive"] = False
